@@ -34,13 +34,13 @@ def _ser(L, mlw):
 
 
 def configs(tier):
-    if tier == "quick":
-        c = [_const(L, 8) for L in (1, 2, 3, 5, 8)]
+    if tier == "quick":                                   # 16 configurations = one wave on 16 cores
+        c = [_const(L, 8) for L in (1, 5, 8)]
         c += [_const(4, 8, mlw=None), _const(6, 8, mlw=16)]
-        c += [_const(L, 32) for L in (1, 3, 4, 5, 8, 9)]
+        c += [_const(L, 32) for L in (3, 5, 8, 9)]
         c += [_const(7, 32, mlw=None), _const(6, 32, mlw=16)]
-        c += [_const(L, 32, "big") for L in (3, 5, 8)]
-        c += [_ser(1, 1), _ser(2, 2), _ser(3, None), _ser(4, 3)]
+        c += [_const(L, 32, "big") for L in (5, 8)]
+        c += [_ser(2, 2), _ser(3, None), _ser(4, 3)]
         return c
     c = []
     for L in range(1, 10):
@@ -170,15 +170,13 @@ class GeneratorSpec(Spec):
                 "for big-endian 32-bit data either lane convention for a partial word is admitted (packed low lanes / fixed lanes)"]
 
     def goals(self):
-        g = ["run-completed", "stall-on-last-word", "stall-on-first-word", "chained-run"]
-        if self.mlw:
-            g.append("zero-length-start")
-            if self.L > 1: g.append("cut-by-max-length")
-            if any(ml > self.L for ml in self.mls): g.append("max-length-beyond-data")
-            if self.B == 4 and self.L > 1: g.append("partial-word-by-max-length")
-        if self.rows > 1: g += ["start-position-nonzero", "multi-word-run"]
-        if self.B == 4 and self.L % 4: g.append("partial-word-by-data-length")
-        return g
+        # every kind of run the alphabet of this configuration can produce must have been completed at least once
+        g = {"stall-on-last-word", "stall-on-first-word", "chained-run"}
+        if 0 in self.mls: g.add("zero-length-start")
+        for sp in range(self.rows):
+            for ml in self.mls:
+                if ml > 0: g.update(self._run_features(sp, ml))
+        return sorted(g)
 
     def _step0(self, cur, st, sp, ml, ds, ready):
         kw = dict(start=st, ready=ready)
@@ -255,17 +253,22 @@ class GeneratorSpec(Spec):
             raise Violation("no-word-offered", ctx)
         return ("run", sp, ml, ds, i, wait + 1, interps)
 
-    def _cover_run(self, sp, ml, ds, n, interps):
-        c = self.cover
-        c["run-completed"] += 1
+    def _run_features(self, sp, ml):
+        """cover-goal names a completed run (start_position sp, max_length ml > 0) stands for"""
+        f = ["run-completed"]
         avail = self.L - sp * self.B
-        if sp: c["start-position-nonzero"] += 1
-        if n > 1: c["multi-word-run"] += 1
+        n = len(self.words(sp, ml, 0, self.interps[0]))
+        if sp: f.append("start-position-nonzero")
+        if n > 1: f.append("multi-word-run")
         if self.mlw:
-            if ml < avail: c["cut-by-max-length"] += 1
-            if ml > self.L: c["max-length-beyond-data"] += 1
-            if self.B == 4 and ml < avail and ml % 4: c["partial-word-by-max-length"] += 1
-        if self.B == 4 and ml >= avail and avail % 4: c["partial-word-by-data-length"] += 1
+            if ml < avail: f.append("cut-by-max-length")
+            if ml > self.L: f.append("max-length-beyond-data")
+            if self.B == 4 and ml < avail and ml % 4: f.append("partial-word-by-max-length")
+        if self.B == 4 and ml >= avail and avail % 4: f.append("partial-word-by-data-length")
+        return f
+
+    def _cover_run(self, sp, ml, ds, n, interps):
+        for f in self._run_features(sp, ml): self.cover[f] += 1
 
     def apply(self, cur, env, a):
         ph = env[0]
